@@ -49,11 +49,10 @@ CORPORA = {
                                        ("owned", (4,), "read")},
                                UnivA={1, 2, 4}, MinLenA=2, MaxLenA=2, Policies={"WP"}, NT=3, Keys={"owned"}),
                    parts=14, max_runs=150000),
-        thorough=dict(consts=dict(Kinds={"boxed", "retry", "single", "ref", "owned"},
-                                  ApisA={"lock", "try_lock", "read", "scoped_lock"},
+        thorough=dict(consts=dict(Kinds={"boxed", "retry", "ref"}, ApisA={"lock", "try_lock", "read"},
                                   CallsB={("boxed", (2, 1), "lock"), ("retry", (4, 2), "lock"), ("single", (1,), "lock"),
-                                          ("owned", (4,), "read"), ("ref", (1, 4), "read"), ("retry", (1, 2), "read")},
-                                  UnivA={1, 2, 4}, MinLenA=1, MaxLenA=3, Policies={"RP", "WP"}, NT=3, Keys={"owned"}),
+                                          ("owned", (4,), "read")},
+                                  UnivA={1, 2, 4}, MinLenA=2, MaxLenA=3, Policies={"RP", "WP"}, NT=3, Keys={"owned"}),
                       parts=16, max_runs=1500000),
     ),
 }
@@ -85,10 +84,10 @@ CORPORA.update({
                                SeqKeyOps={"probe", "getkey", "dropkey", "forgetkey"}, SeqMaxLen=3,
                                SeqHolders={("none", 0), ("lock", 3)}, Policies={"RP"}),
                    parts=14, max_runs=60000),
-        thorough=dict(consts=dict(Family="seq", SeqColls={1, 4, 8}, SeqApis={"lock", "try_lock", "scoped_lock", "scoped_try_lock", "read"},
+        thorough=dict(consts=dict(Family="seq", SeqColls={1, 8}, SeqApis={"lock", "try_lock", "scoped_lock", "scoped_try_lock"},
                                   SeqRels={"drop", "unlock", "forget"}, SeqKeys={"owned", "lent"}, SeqBodies={"none", "panic"},
                                   SeqKeyOps={"probe", "getkey", "dropkey", "forgetkey"}, SeqMaxLen=3,
-                                  SeqHolders={("none", 0), ("lock", 3)}, Policies={"RP"}),
+                                  SeqHolders={("none", 0)}, Policies={"RP"}),
                       parts=16, max_runs=1500000),
     ),
     # two-item histories over every key-consuming path of every kind (Mutex, RwLock, boxed, retry, Poisonable),
@@ -99,8 +98,8 @@ CORPORA.update({
                                SeqRels={"drop", "unlock"}, SeqKeys={"owned", "lent"}, SeqBodies={"none", "panic"},
                                SeqKeyOps={"probe"}, SeqMaxLen=2, SeqHolders={("none", 0), ("lock", 13)}, Policies={"RP"}),
                    parts=14, max_runs=60000),
-        thorough=dict(consts=dict(Family="seq", SeqColls={1, 2, 3, 4, 5, 6, 8, 9}, SeqApis=ALL_APIS,
-                                  SeqRels={"drop", "unlock", "forget"}, SeqKeys={"owned", "lent"}, SeqBodies={"none", "panic"},
+        thorough=dict(consts=dict(Family="seq", SeqColls={1, 2, 3, 4, 6, 8}, SeqApis=ALL_APIS,
+                                  SeqRels={"drop", "unlock"}, SeqKeys={"owned", "lent"}, SeqBodies={"none", "panic"},
                                   SeqKeyOps={"probe"}, SeqMaxLen=2, SeqHolders={("none", 0), ("lock", 13)}, Policies={"RP"}),
                       parts=16, max_runs=1500000),
     ),
@@ -112,7 +111,7 @@ CORPORA.update({
                                SeqKeyOps=set(), SeqTopOps={("is_poisoned", 8), ("clear_poison", 8), ("is_poisoned", 7)},
                                SeqMaxLen=3, SeqHolders={("none", 0)}, Policies={"RP"}),
                    parts=14, max_runs=60000),
-        thorough=dict(consts=dict(Family="seq", SeqColls={7, 8, 9, 11}, SeqApis={"lock", "try_lock", "scoped_lock", "read", "scoped_read"},
+        thorough=dict(consts=dict(Family="seq", SeqColls={7, 8, 11}, SeqApis={"lock", "scoped_lock", "read"},
                                   SeqRels={"drop"}, SeqKeys={"owned"}, SeqBodies={"acc", "panic", "clearpanic"},
                                   SeqKeyOps=set(), SeqTopOps={("is_poisoned", 8), ("clear_poison", 8), ("is_poisoned", 7),
                                                               ("clear_poison", 7)},
@@ -127,11 +126,10 @@ CORPORA.update({
                                SeqKeyOps=set(), SeqMaxLen=2,
                                SeqHolders={("none", 0), ("lock", 3), ("read", 3)}, Policies={"RP"}),
                    parts=14, max_runs=60000),
-        thorough=dict(consts=dict(Family="seq", SeqColls={1, 2, 3, 4, 5, 6, 7, 9, 13, 14}, SeqApis=ALL_APIS,
-                                  SeqRels={"drop", "unlock", "forget"}, SeqKeys={"owned", "lent"}, SeqBodies={"acc", "none"},
-                                  SeqKeyOps={"probe"}, SeqMaxLen=2,
-                                  SeqHolders={("none", 0), ("lock", 3), ("read", 3), ("lock", 6), ("read", 4)},
-                                  Policies={"RP", "WP"}),
+        thorough=dict(consts=dict(Family="seq", SeqColls={1, 2, 3, 4, 5, 6, 13, 14}, SeqApis=ALL_APIS,
+                                  SeqRels={"drop", "unlock"}, SeqKeys={"owned", "lent"}, SeqBodies={"acc"},
+                                  SeqKeyOps=set(), SeqMaxLen=2,
+                                  SeqHolders={("none", 0), ("lock", 3), ("read", 3)}, Policies={"RP", "WP"}),
                       parts=16, max_runs=1500000),
     ),
     # panics in user code at every critical section, poisonable wrappers everywhere
@@ -142,11 +140,11 @@ CORPORA.update({
                                SeqKeyOps=set(), SeqTopOps={("is_poisoned", 8), ("clear_poison", 8), ("is_poisoned", 7)},
                                SeqMaxLen=2, SeqHolders={("none", 0)}, Policies={"RP"}),
                    parts=14, max_runs=50000),
-        thorough=dict(consts=dict(Family="seq", SeqColls={1, 2, 3, 4, 5, 6, 7, 8, 9, 10, 11, 12, 15, 16}, SeqApis=ALL_APIS,
-                                  SeqRels={"drop", "unlock"}, SeqKeys={"owned", "lent"}, SeqBodies={"acc", "panic"},
-                                  SeqKeyOps={"probe"}, SeqTopOps={("is_poisoned", 8), ("clear_poison", 8), ("is_poisoned", 7),
-                                                                  ("clear_poison", 7), ("is_poisoned", 11), ("clear_poison", 11)},
-                                  SeqMaxLen=2, SeqHolders={("none", 0), ("lock", 3), ("read", 3)}, Policies={"RP", "WP"}),
+        thorough=dict(consts=dict(Family="seq", SeqColls={3, 4, 7, 8, 9, 10, 11, 12, 15, 16}, SeqApis=ALL_APIS,
+                                  SeqRels={"drop"}, SeqKeys={"owned", "lent"}, SeqBodies={"acc", "panic"},
+                                  SeqKeyOps=set(), SeqTopOps={("is_poisoned", 8), ("clear_poison", 8), ("is_poisoned", 7),
+                                                              ("clear_poison", 7), ("is_poisoned", 11), ("clear_poison", 11)},
+                                  SeqMaxLen=2, SeqHolders={("none", 0), ("lock", 3)}, Policies={"RP"}),
                       parts=16, max_runs=1500000),
     ),
     # two threads, thread 1's critical section panics; thread 2 waits for the same locks
@@ -176,11 +174,15 @@ CORPORA.update({
                                Policies={"RP", "WP"}),
                    parts=14, max_runs=100000),
         thorough=dict(consts=dict(Family="seq", SeqColls={1, 2, 3, 4, 5, 6, 7, 9, 13, 14}, SeqApis=ALL_APIS,
-                                  SeqRels={"drop"}, SeqKeys={"owned"}, SeqBodies={"dbg", "access", "dupcheck"}, SeqDbgColls={1, 2, 3, 4, 5, 6, 7, 9, 13, 14},
+                                  SeqRels={"drop"}, SeqKeys={"owned", "lent"}, SeqBodies={"dbg", "access", "dupcheck"},
+                                  SeqDbgColls={1, 2, 3, 4, 5, 6, 7, 9, 13, 14},
                                   SeqKeyOps=set(), SeqTopOps={("debug", 1), ("debug", 2), ("debug", 3), ("debug", 4), ("debug", 5),
                                                               ("debug", 6), ("debug", 7), ("debug", 9), ("debug", 13), ("debug", 14),
-                                                              ("is_poisoned", 7), ("clear_poison", 7)},
-                                  SeqMaxLen=2, SeqHolders={("none", 0), ("lock", 3), ("read", 3), ("lock", 6), ("lock", 13), ("read", 4)},
+                                                              ("is_poisoned", 7), ("clear_poison", 7), ("access", 3), ("access", 4),
+                                                              ("access", 5), ("dupcheck", 3), ("dupcheck", 4), ("dupcheck", 6),
+                                                              ("dupcheck", 7), ("dupcheck", 1), ("dupcheck", 14)},
+                                  SeqMaxLen=1, SeqHolders={("none", 0), ("lock", 3), ("read", 3), ("lock", 6), ("lock", 13), ("read", 4),
+                                                           ("lock", 14), ("read", 5), ("lock", 2)},
                                   Policies={"RP", "WP"}),
                       parts=16, max_runs=1500000),
     ),
